@@ -37,13 +37,24 @@ Theorem C19_text_never_control : forall (m : mman) (d : roff),
 Proof. exact page_control_lines. Qed.
 Print Assumptions C19_text_never_control.
 
-(* The set of requests is fixed by the generator: every control element is .TH/.SH (author text in
-   the arguments, confined to that line) or one of PP, TP, RS, RS 14, RE, IP \(bu 2 verbatim. *)
-Theorem C19_controls_fixed : forall (m : mman) (d : roff) name args,
+(* Full statement aimed at (DESIGN 5, C19_controls_fixed), NOT proved in Coq -- covered on every run by
+   the direct oracle (the same tree rendered with innocuous text has the same control lines):
+
+     forall sigma, (forall s, map is_blank (lines (sigma s)) = map is_blank (lines s)) ->
+     forall m, controls (man_doc (map_text sigma m)) = controls (man_doc m)
+
+   where [map_text sigma] applies sigma to every text-only slot (about, help, after-help, author,
+   long version, option/value/possible-value names, defaults, env, subcommand names and abouts) and
+   [controls] is [flat_map own_controls] under [Ok].  What is proved: by C19_text_never_control the
+   control lines of the page are EXACTLY the generator's own elements, and (below) every control
+   element is .TH/.SH -- author text in the arguments, confined to that one line -- or one of
+   PP, TP, RS, RS 14, RE, IP \(bu 2 verbatim.  Missing: that the NUMBER and ORDER of these
+   elements depend on the text-only slots through the blank-line pattern of the description only. *)
+Theorem C19_controls_fixed_partial : forall (m : mman) (d : roff) name args,
   man_doc m = Ok d -> In (Control name args) d ->
   ctl_fixed name args = true /\ ctl_clean name args = true.
 Proof. exact man_doc_requests. Qed.
-Print Assumptions C19_controls_fixed.
+Print Assumptions C19_controls_fixed_partial.
 
 (* Totality, and the page of Man::new(cmd) with any builder overrides: no expect/unwrap is reached
    and the control lines are the generator's own. *)
